@@ -377,7 +377,27 @@ def check(repo, res, tier):
                     n_branch += 1
                 else:
                     bad = upaths[0]
-        # ... and nothing else can leave a flagged finished task unreported
+    else:
+        # path mode found the branch: it must be reached for EVERY task of the plan -- the loop
+        # around it runs over the plan's tasks and is not left early (a task behind the exit would
+        # be dropped from the plan without its flag ever being looked at)
+        from ..index import guard_stack, loop_leaves_early
+        ufr = Frame(u)
+        ppc = ProvCanon(repo)
+        T = '%s.tasks' % u.params[1]
+        for n in walk_no_nested(u.node):
+            if isinstance(n, ast.Assign) and canon.c(n.targets[0], ufr) == 'Scheduler.schedule_status' and \
+                    canon.c(n.value, ufr) == 'ScheduleStatus.DELAYED':
+                loops = [g[1] for g in (guard_stack(u.node, n) or []) if g[0] == 'for']
+                whiles = [g for g in (guard_stack(u.node, n) or []) if g[0] == 'while']
+                if len(loops) != 1 or whiles or ppc.p(loops[0].iter, ufr) != T or loop_leaves_early(loops[0]):
+                    bad = upaths[0]
+                    res.bad('C15.Y5', u, n, 'DELAYED is not examined for every task of the plan',
+                            'the finished-and-flagged test is made inside a loop over %s that %s: a flagged task that '
+                            'finishes behind the point where the loop stops is dropped from the plan without the delay '
+                            'ever being reported' % (
+                                short(ppc.p(loops[0].iter, ufr)) if loops else 'nothing',
+                                'can be left early' if loops and loop_leaves_early(loops[0]) else 'is not the plan\'s task list'))
     if n_branch and bad is None:
         res.ok('C15.Y5', u, u.node, 'finished task with delay_flag => schedule_status = DELAYED',
                '%d paths' % n_branch)
